@@ -79,6 +79,7 @@ package gen
 //@   ensures[C06] old(rootOK(p)) && old(p.meta.rowGroupDocs) == 0 ==> err == nil && snkPos == old(snkPos) && groupsSame(p.meta) && p.meta.rowGroupDocs == 0 && p.meta.docs == old(p.meta.docs) && sameheap("sch.ColumnMetaData") && sameheap("map[string]sch.ColumnChunk") && sameheap("[]parquet.RowGroup") && rootOK(p)
 //@   ensures[C06] old(rootOK(p)) && old(p.meta.rowGroupDocs) != 0 && err == nil ==> #p.meta.rowGroups == old(#p.meta.rowGroups) + 1 && p.meta.rowGroups[#p.meta.rowGroups - 2].rowGroup.NumRows == old(p.meta.rowGroupDocs) && (forall k in 0..old(#p.meta.rowGroups) - 1: p.meta.rowGroups[k].rowGroup.NumRows == old(p.meta.rowGroups[k].rowGroup.NumRows)) && p.meta.docs == old(p.meta.docs) && rootOK(p)
 //@   ensures[C06] p.max == old(p.max) && p.meta == old(p.meta) && p.w == old(p.w)
+//@   ensures[C06] old(chainInv(allocbound())) ==> chainInv(allocbound())
 //@ loop (*ParquetWriter).Write#1
 //@   modifies p.meta, HA(p.meta.rowGroups), heap("sch.ColumnMetaData"), heap("map[string]sch.ColumnChunk"), wfault, snkPos, relArr
 //@   invariant metaOK(p.meta) && (wfault ==> old(wfault)) && p.meta.rowGroups == old(p.meta.rowGroups) && 0 <= rangeindex + 1
@@ -158,14 +159,14 @@ package gen
 //@   ensures err == nil ==> writerOK(res0)
 //@   ensures[C09] err == nil ==> (wfault ==> old(wfault))
 //@   ensures[C06] err == nil && res0.max >= 1 ==> rootOK(res0) && #res0.meta.rowGroups == 1 && res0.meta.docs == 0
-//@   ensures[C06] err == nil ==> res0.child == nil && (chainInv(old(allocbound())) ==> chainInv(allocbound()))
+//@   ensures[C06] err == nil ==> res0.child == nil && (old(chainInv(allocbound())) ==> chainInv(allocbound()))
 
 // index of the last option with function identity id, or -1
 //@ recfn[4] lastOpt(A array<int>, off int, n int, id int) int := ite(n <= 0, 0 - 1, ite(fnid(A[off + n - 1]) == id, n - 1, lastOpt(A, off, n - 1, id)))
 // C06: overflow pages form a chain of writers that share the root's metadata and page size.
 //@ pred chainAt(c) := c.child != nil ==> c.child.meta == c.meta && c.child.max == c.max
 //@ pred chainInv(n) := forall r in 1..n: chainAt(cast("*GEN.ParquetWriter", r))
-//@ pred nodeKept(c) := c.len >= old(c.len) && c.max == old(c.max) && c.meta == old(c.meta) && c.w == old(c.w)
+//@ pred nodeKept(c) := c.len >= old(c.len) && c.fields == old(c.fields) && c.max == old(c.max) && c.meta == old(c.meta) && c.w == old(c.w)
 //@ pred optMeta(opts, n) := lastOpt(HA(opts), off(opts), n, fnidOf("GEN.withMeta$1"))
 //@ pred optMax(opts, n) := lastOpt(HA(opts), off(opts), n, fnidOf("GEN.MaxPageSize$1"))
 
@@ -173,12 +174,12 @@ package gen
 //@   requires external(w) || (forall k in 0..#opts: fnid(opts[k]) != fnidOf("GEN.begin"))
 //@   modifies wfault, snkPos
 //@   ensures[C06] err == nil ==> res0.len == 0 && res0.child == nil && #res0.fields >= 1 && res0.meta != nil
-//@   ensures[C06] err == nil && optMeta(opts, #opts) >= 0 ==> res0.meta == cloArg(opts[optMeta(opts, #opts)])
+//@   ensures[C06] err == nil && optMeta(opts, #opts) >= 0 && cloArg(opts[optMeta(opts, #opts)]) != 0 ==> res0.meta == cloArg(opts[optMeta(opts, #opts)])
 //@   ensures[C06] err == nil && optMeta(opts, #opts) < 0 ==> #res0.meta.rowGroups == 1 && lastRows(res0.meta) == 0 && res0.meta.rowGroupDocs == 0 && res0.meta.docs == 0
 //@   ensures[C06] err == nil && optMax(opts, #opts) >= 0 ==> res0.max == cloArg(opts[optMax(opts, #opts)])
 //@   ensures[C06] err == nil && optMax(opts, #opts) < 0 ==> res0.max == 1000
 //@   ensures[C06] (forall k in 0..#opts: fnid(opts[k]) != fnidOf("GEN.begin")) ==> snkPos == old(snkPos)
-//@   ensures[C06] chainInv(old(allocbound())) ==> chainInv(allocbound())
+//@   ensures[C06] old(chainInv(allocbound())) ==> chainInv(allocbound())
 //@   ensures err == nil ==> res0 != nil && freshsince(res0) && res0.w == w
 //@   ensures (forall k in 0..#opts: fnid(opts[k]) != fnidOf("GEN.withMeta$1")) && err == nil ==> metaOK(res0.meta) && freshsince(res0.meta)
 //@   ensures (forall k in 0..#opts: fnid(opts[k]) != fnidOf("GEN.begin")) ==> wfault == old(wfault)
